@@ -79,7 +79,7 @@ def main():
         args = [a for a in args if a != tier]
     root = os.path.join(VERIF, "seeded")
     ids = args or sorted(d for d in os.listdir(root) if os.path.isdir(os.path.join(root, d)))
-    resp = os.path.join(root, "RESULTS.json")
+    resp = os.environ.get("SEEDED_RESULTS") or os.path.join(root, "RESULTS.json")
     results = json.load(open(resp)) if os.path.exists(resp) else {}
     if "--scratch" in sys.argv:
         run_scratch(ids, tier, root, results)
